@@ -185,6 +185,68 @@ func (n *Node) At(path string) *Node {
 type Interp struct {
 	MaxDepth int
 	Trace    []string // callees inlined
+	// Path, when set, is one entry-to-return path through the blocks of the top-level
+	// function (which must be loop-free): the blocks are interpreted in that order, phis
+	// take the value of the edge they were entered by, and an equality test `sym == const`
+	// that the path takes on its true side is recorded in Subst (the identity then only
+	// has to hold with that value substituted). No solver is involved: a path is a
+	// straight-line program and the guards are used as constant substitutions only.
+	Path  []*ssa.BasicBlock
+	Subst map[string]*big.Rat
+}
+
+// SubstAll applies constant substitutions to every numeric leaf of the tree.
+func (n *Node) SubstAll(m map[string]*big.Rat) {
+	if n == nil {
+		return
+	}
+	if n.Leaf != nil {
+		for name, r := range m {
+			n.Leaf = n.Leaf.Subst(name, PRat(r))
+		}
+	}
+	for _, k := range n.Kids {
+		k.SubstAll(m)
+	}
+}
+
+// AcyclicPaths enumerates the entry-to-return block paths of a loop-free function
+// (nil if the CFG has a cycle or more than limit paths).
+func AcyclicPaths(fn *ssa.Function, limit int) [][]*ssa.BasicBlock {
+	if len(fn.Blocks) == 0 {
+		return nil
+	}
+	var out [][]*ssa.BasicBlock
+	onPath := map[*ssa.BasicBlock]bool{}
+	cyclic := false
+	var walk func(b *ssa.BasicBlock, path []*ssa.BasicBlock)
+	walk = func(b *ssa.BasicBlock, path []*ssa.BasicBlock) {
+		if cyclic || len(out) > limit {
+			return
+		}
+		if onPath[b] {
+			cyclic = true
+			return
+		}
+		onPath[b] = true
+		path = append(path, b)
+		if len(b.Succs) == 0 {
+			if len(b.Instrs) > 0 {
+				if _, isRet := b.Instrs[len(b.Instrs)-1].(*ssa.Return); isRet {
+					out = append(out, append([]*ssa.BasicBlock(nil), path...))
+				}
+			}
+		}
+		for _, s := range b.Succs {
+			walk(s, path)
+		}
+		onPath[b] = false
+	}
+	walk(fn.Blocks[0], nil)
+	if cyclic || len(out) > limit {
+		return nil
+	}
+	return out
 }
 
 // Eval runs fn on the given argument values (each *Node or *Ptr) and returns the
@@ -196,7 +258,13 @@ func (it *Interp) Eval(fn *ssa.Function, args []any, depth int) (rets []any, ok 
 	if depth > it.MaxDepth {
 		return nil, false, "inlining depth exceeded at " + FuncName(fn)
 	}
-	if len(fn.Blocks) != 1 {
+	blocks := fn.Blocks[:1]
+	if depth == 0 && it.Path != nil && len(it.Path) > 0 && it.Path[0].Parent() == fn {
+		blocks = it.Path
+		if it.Subst == nil {
+			it.Subst = map[string]*big.Rat{}
+		}
+	} else if len(fn.Blocks) != 1 {
 		return nil, false, fmt.Sprintf("%s has %d basic blocks (branches/loops are outside the straight-line fragment)", FuncName(fn), len(fn.Blocks))
 	}
 	if len(args) != len(fn.Params) {
@@ -222,9 +290,52 @@ func (it *Interp) Eval(fn *ssa.Function, args []any, depth int) (rets []any, ok 
 		}
 		return n.Leaf, true
 	}
-	for _, in := range fn.Blocks[0].Instrs {
+	var instrs []ssa.Instruction
+	prevOf := map[ssa.Instruction]*ssa.BasicBlock{}
+	nextOf := map[ssa.Instruction]*ssa.BasicBlock{}
+	for bi, b := range blocks {
+		for _, in := range b.Instrs {
+			instrs = append(instrs, in)
+			if bi > 0 {
+				prevOf[in] = blocks[bi-1]
+			}
+			if bi+1 < len(blocks) {
+				nextOf[in] = blocks[bi+1]
+			}
+		}
+	}
+	for _, in := range instrs {
 		switch x := in.(type) {
 		case *ssa.DebugRef:
+		case *ssa.Jump:
+		case *ssa.Phi:
+			prev := prevOf[in]
+			env[x] = opaqueNode(x.Type(), "phi")
+			for i, p := range x.Block().Preds {
+				if p == prev && i < len(x.Edges) {
+					env[x] = val(x.Edges[i])
+				}
+			}
+		case *ssa.If:
+			next := nextOf[in]
+			if b, ok := x.Cond.(*ssa.BinOp); ok && (b.Op == token.EQL || b.Op == token.NEQ) && next != nil {
+				taken := (b.Op == token.EQL && next == x.Block().Succs[0]) || (b.Op == token.NEQ && next == x.Block().Succs[1])
+				if taken && x.Block().Succs[0] != x.Block().Succs[1] {
+					pa, oka := num(b.X)
+					pb, okb := num(b.Y)
+					if oka && okb {
+						if cst, isC := pb.IsConst(); isC {
+							if syms := pa.Symbols(); len(syms) == 1 && pa.Equal(PSym(syms[0])) {
+								it.Subst[syms[0]] = cst
+							}
+						} else if cst, isC := pa.IsConst(); isC {
+							if syms := pb.Symbols(); len(syms) == 1 && pb.Equal(PSym(syms[0])) {
+								it.Subst[syms[0]] = cst
+							}
+						}
+					}
+				}
+			}
 		case *ssa.Alloc:
 			pt := x.Type().Underlying().(*types.Pointer)
 			env[x] = &Ptr{Target: NewZero(pt.Elem())}
